@@ -541,9 +541,30 @@ def C09_comment_fields(ctx, rid, core):
                         if H.kind(y) == "If" and any(H.kind(z) == "MethodCall" and z["name"] == "has_comments" for z in H.walk(y["cond"])) and any(H.kind(z) == "Ret" for z in H.walk(y["then"])):
                             guarded = True
             own = "leading" in reads and "trailing" in reads
-            # the enclosing function may read the fields of the same element outside this closure (for-loop body does it inline)
-            if not own and H.kind(n) == "Closure":
-                pass
+            # the members themselves may be handed, next to their rendered text, to a helper of the module that emits the comment
+            # fields (`do_block_source(statements, rendered_statements, ..)`)
+            if not own:
+                coll = None
+                if H.kind(n) == "For":
+                    it_ = H.strip(n["iter"])
+                else:
+                    it_ = None
+                    for gg in g:
+                        pass
+                    # the closure is an argument of `<collection>.iter().map(closure)`: find that call in the enclosing function
+                    for y in H.walk(f["body"]):
+                        if H.kind(y) == "MethodCall" and any(H.strip(a_) is n for a_ in y.get("args", [])):
+                            it_ = H.strip(y["recv"])
+                while it_ is not None and H.kind(it_) == "MethodCall":
+                    it_ = H.strip(it_["recv"])
+                coll = H.path_local(it_) if it_ is not None else None
+                if coll is not None:
+                    for y in H.walk(f["body"]):
+                        if H.kind(y) == "Call" and (y.get("def") or "") in pf and y["def"] != name and any(H.path_local(H.strip(a_)) == coll for a_ in y["args"]):
+                            hb = pf[y["def"]].get("body") or {}
+                            flds = {z["name"] for z in H.walk(hb) if H.kind(z) == "Field" and z["name"] in ("leading", "trailing") and "ast::Commented<" in H.strip(z["e"]).get("ty", "").lstrip("&")}
+                            if {"leading", "trailing"} <= flds:
+                                own = True
             ok = own or guarded
             ctx.inst(rid, "%s[%s]#%s@%s" % (name.replace(CORE, ""), lab or "-", H.kind(n).lower(), "members"), ok,
                      "reads .node of Commented members; emits .leading and .trailing: %s; guarded by has_comments(): %s" % (own, guarded), H.loc(n))
@@ -610,6 +631,15 @@ def C09_single_members(ctx, rid, core):
                 if slot is None:
                     continue
                 reads.setdefault(slot, {}).setdefault(fname, set()).add(x["name"])
+    # a printer that hands the member itself on to a helper of the module emits what the helper emits for it
+    for fname, f in fns.items():
+        for n in H.walk(f["body"]):
+            if H.kind(n) == "Call" and (n.get("def") or "") in fns and n["def"] != fname:
+                for a_ in n["args"]:
+                    l = H.path_local(H.strip(a_))
+                    slot = resolve(fname, l) if l is not None else None
+                    if slot and slot in reads and n["def"] in reads[slot] and fname in reads[slot]:
+                        reads[slot][fname] = reads[slot][fname] | reads[slot][n["def"]]
     for slot, by_fn in sorted(reads.items()):
         ref = set().union(*by_fn.values())
         for fname, got in sorted(by_fn.items()):
